@@ -106,7 +106,8 @@ class AutoSeparatedPacketSerializer(BufferedIncrementalPacketSerializer[_T_SentD
         if self.__incremental_serialize_check_separator:
             while data.endswith(separator):
                 data = data.removesuffix(separator)
-            if separator in data:
+            # Also catches a separator overlapping itself (e.g. b"aa"): the end of the data must not complete it before its own position.
+            if (data + separator).find(separator) != len(data):
                 raise ValueError(f"{separator!r} separator found in serialized packet {packet!r} which was not at the end")
         elif data.endswith(separator):
             yield data
